@@ -156,7 +156,15 @@ func interpolateMap[K comparable, V any, M ~map[K]V](tf stringTransformer, m M) 
 // interpolateOrderedMap applies interpolateAny over any type of ordered.Map.
 // The map is altered in-place.
 func interpolateOrderedMap[K comparable, V any](tf stringTransformer, m *ordered.Map[K, V]) error {
-	return m.Range(func(k K, v V) error {
+	if m == nil {
+		return nil
+	}
+	// Interpolated items are collected into a new map (in the same order) that
+	// then replaces the contents of m. Renaming keys one at a time within m
+	// would delete a later item whenever an interpolated key happened to equal
+	// that item's not-yet-interpolated key.
+	out := ordered.NewMap[K, V](m.Len())
+	err := m.Range(func(k K, v V) error {
 		// We interpolate both keys and values.
 		intk, err := interpolateAny(tf, k)
 		if err != nil {
@@ -167,7 +175,12 @@ func interpolateOrderedMap[K comparable, V any](tf stringTransformer, m *ordered
 			return err
 		}
 
-		m.Replace(k, intk, intv)
+		out.Set(intk, intv)
 		return nil
 	})
+	if err != nil {
+		return err
+	}
+	*m = *out
+	return nil
 }
